@@ -16,7 +16,6 @@ import (
 	"sort"
 	"strings"
 	"testing"
-	"testing/synctest"
 
 	"github.com/deckhouse/deckhouse/pkg/log"
 	jsonpatch "github.com/evanphx/json-patch"
@@ -353,7 +352,7 @@ func TestC13(t *testing.T) {
 		}
 		modes := []string{"json", "yaml", "yaml-string-objects"}
 		runs := map[string]c13run{}
-		synctest.Test(c.T, func(t *testing.T) {
+		inBubble(c, func(t *testing.T) {
 			for _, m := range modes {
 				runs[m] = c13execute(initial, c13render(docs, m))
 			}
